@@ -71,7 +71,8 @@ pub fn emit(seed: u64, n_streams: usize, stream_len: usize, n_raw: usize) {
         let d = match i % 5 { 0 => 1 << 24, 1 => 1, 2 => (1 << 24) - 1, 3 => 1 + r.below(1 << 24) as i64, _ => 1 + r.below(1000) as i64 };
         let min = match i % 3 { 0 => 0i64, 1 => -(r.below(1 << 30) as i64), _ => r.below(1 << 30) as i64 };
         let max = min + d;
-        let iv = g0.clone().i32_minmax(min as i32, max as i32);
+        let gi = g0.clone(); let (mn32, mx32) = (min as i32, max as i32);
+        let iv = match catch(move || { let mut gi = gi; gi.i32_minmax(mn32, mx32) }) { Some(x) => x, None => { println!("P raw value={} i32_minmax({}, {}) panicked", raw, min, max); continue; } };
         println!("R ({}%N, {}%N, {}, {}, {})", raw, num, z(min), z(max), z(iv as i64));
         // f32 / f64 min max: bounds checked by the driver
         let (fmin, fmax) = match i % 4 {
@@ -79,13 +80,15 @@ pub fn emit(seed: u64, n_streams: usize, stream_len: usize, n_raw: usize) {
             2 => { let a = r.cad() as f32; (a, a + (r.cad().abs() as f32) + f32::MIN_POSITIVE) }
             _ => (-(r.cad().abs() as f32), r.cad().abs() as f32 + 1e-3),
         };
-        let fv = g0.clone().f32_minmax(fmin, fmax);
+        let gf = g0.clone();
+        let fv = match catch(move || { let mut gf = gf; gf.f32_minmax(fmin, fmax) }) { Some(x) => x, None => { println!("P raw value={} f32_minmax({:?}, {:?}) panicked", raw, fmin, fmax); continue; } };
         let (dmin, dmax) = match i % 4 {
             0 => (0.0f64, 1.0f64), 1 => (-1.5f64, 9007199254740992.0f64),
             2 => { let a = r.cad(); (a, a + r.cad().abs() + 1e-9) }
             _ => (-r.cad().abs(), r.cad().abs() + 1e-3),
         };
-        let dv = g0.clone().f64_minmax(dmin, dmax);
+        let gd = g0.clone();
+        let dv = match catch(move || { let mut gd = gd; gd.f64_minmax(dmin, dmax) }) { Some(x) => x, None => { println!("P raw value={} f64_minmax({:?}, {:?}) panicked", raw, dmin, dmax); continue; } };
         println!("B {} {:?} {:?} {:?} {:?} {:?} {:?} {:?}", raw, f, fmin, fmax, fv, dmin, dmax, dv);
         println!("D ({}%N, {}, {}, {})", raw, crate::util::f(dmin), crate::util::f(dmax), crate::util::f(dv));
     }
